@@ -31,8 +31,9 @@ VARIABLES hts, svs, nops, sview, orig, ver, lock, ins, outs, lastval, steps, ins
 txvars == <<hts, svs, nops, sview, orig, ver, lock, ins, outs, lastval, steps, inserts>>
 xvars == <<vars, txvars, retag>>
 
-\* TxValidate over the variables of the same names declared above
-TV == INSTANCE TxValidate
+\* TxValidate over the variables of the same names declared above (Signer.tla has an instance of its own, TV, with
+\* the variables replaced by constants: only its constant operators)
+XTV == INSTANCE TxValidate
 
 ----------------------------------------------------------------------------
 (* the bridge between the two vocabularies *)
@@ -56,7 +57,7 @@ Norm(I) == [j \in 1..Len(I) |-> [I[j] EXCEPT !.spk = NormSpk(I[j].spk)]]
 \* every digest preimage) - except under the original algorithm's SIGHASH_SINGLE bug, where the digest
 \* is the constant 1 whatever the transaction and whatever the byte
 Digest(I, O, V, L, pos, b, sv) ==
-    LET v == TV!View(Norm(I), O, V, L, pos, HT(b), sv)
+    LET v == XTV!View(Norm(I), O, V, L, pos, HT(b), sv)
     IN [view |-> v, byte |-> IF v.bug THEN 0 ELSE b]
 
 \* the digest the signature <<k, b>> of input i was made for.  All signing happens before any edit
@@ -72,25 +73,48 @@ Carried(i, k, b) == IF \E t \in retag : t[1] = i /\ t[2] = k
 \* carries (0: none); r.spk = the puzzle it now spends; r.known = its spent output is known
 StillVerifies(pos, i, k, b) ==
     Digest(ins, outs, ver, lock, pos, Carried(i, k, b), SVOf(i)) = SignedDigest(i, b)
+\* the signatures of the unlocking data at pos that verify there, as <<key, byte carried>>
+Verifying(pos) == LET i == ins[pos].unl IN
+                  {<<p[1], Carried(i, p[1], p[2])>> : p \in {q \in signed[i] : StillVerifies(pos, i, q[1], q[2])}}
+\* the keys the puzzle now at pos lists, as far as they are keys of the model: those of its descriptor while
+\* the spent script is the one that was signed for (possibly followed by OP_NOP); the "other puzzle" tokens
+\* (10 + k) stand for the same form guarded by OTHER keys
+PuzzleKeys(pos) == LET r == ins[pos] IN
+                   IF r.id # 0 /\ NormSpk(r.spk) \in {ClassOf(r.id), 30 + ClassOf(r.id)} THEN Listed(r.id) ELSE {}
+\* does the unlocking data at pos face the puzzle (class) it was made for
+FacesOwnPuzzle(pos) == LET r == ins[pos] IN
+                       r.unl # 0 /\ NormSpk(r.spk) \in {ClassOf(r.unl), 30 + ClassOf(r.unl)}
+
+\* what MUST be reported: unlocking data on the puzzle it was made for is evaluated exactly as when it was
+\* signed, so every listed key whose signature still verifies is a signer
 Attribution(pos) ==
-    LET r == ins[pos]
-        i == r.unl
-    IN IF i = 0 \/ ~r.known THEN {}
-       \* the unlocking data must face the puzzle (class) it was made for - possibly followed by OP_NOP;
-       \* any other puzzle lists other keys or never gets as far as checking a signature
-       ELSE IF NormSpk(r.spk) \notin {ClassOf(i), 30 + ClassOf(i)} THEN {}
-       ELSE {<<p[1], Carried(i, p[1], p[2])>> : p \in {q \in signed[i] : StillVerifies(pos, i, q[1], q[2])}}
+    LET r == ins[pos] IN
+    IF r.unl = 0 \/ ~r.known \/ ~FacesOwnPuzzle(pos) THEN {} ELSE Verifying(pos)
+\* what MAY be reported.  Unlocking data moved onto a DIFFERENT puzzle normally verifies nowhere (every digest
+\* commits to the outpoint of its own input).  In the SIGHASH_SINGLE-without-output corner the digest is a
+\* constant: a signature made there verifies on every other such input, and whether the foreign puzzle's
+\* script happens to pair it with the key it lists is a matter of stack layout this model does not decide -
+\* a report may then name such a key or not
+AttributionMay(pos) ==
+    LET r == ins[pos] IN
+    IF r.unl = 0 \/ ~r.known THEN {}
+    ELSE IF FacesOwnPuzzle(pos) THEN Verifying(pos)
+    ELSE {p \in Verifying(pos) : p[1] \in PuzzleKeys(pos)}
+ReportAllowed(pos, R) == Attribution(pos) \subseteq R /\ R \subseteq AttributionMay(pos)
 Positions == 1..Len(ins)
 AttributionAll == [pos \in Positions |-> Attribution(pos)]
+AttributionMayAll == [pos \in Positions |-> AttributionMay(pos)]
 \* the keys the puzzle at pos lists (for the kinds whose spent script or supplied script names them)
 ListedAt(pos) == LET i == ins[pos].unl IN IF i = 0 THEN {} ELSE Listed(i)
 
 ----------------------------------------------------------------------------
 (* behaviours: sign, then edit *)
+\* (Signer's own count of outputs - a variable only its Edit action reads - keeps InitWith's default; the outputs
+\* of this module are TxValidate's `outs`)
 XInitWith(c, sh, nout) ==
     /\ InitWith(c, sh)
     /\ retag = {}
-    /\ TV!InitWith(Len(sh), nout, [k \in 1..Len(sh) |-> 1],
+    /\ XTV!InitWith(Len(sh), nout, [k \in 1..Len(sh) |-> 1],
                    [k \in 1..Len(sh) |-> IF c \in ForkIdCoins THEN "forkid"
                                         ELSE IF sh[k].kind \in WitnessKinds THEN "witness" ELSE "base"],
                    [k \in 1..Len(sh) |-> Nopable(sh[k].kind)])
@@ -98,7 +122,7 @@ XInitWith(c, sh, nout) ==
 Editing == steps > 0
 XSign(p) == /\ ~Editing /\ SignPass(p) /\ UNCHANGED <<txvars, retag>>
 XSignWith(p, ch) == /\ ~Editing /\ SignPassWith(p, ch) /\ UNCHANGED <<txvars, retag>>
-XMutate(x) == /\ TV!Mutate(x) /\ UNCHANGED <<vars, retag>>
+XMutate(x) == /\ XTV!Mutate(x) /\ UNCHANGED <<vars, retag>>
 \* overwrite the hash-type byte of one signature present (at most one per behaviour)
 XRetag(i, k, b) ==
     /\ steps < MaxSteps /\ retag = {}
@@ -109,7 +133,7 @@ XRetag(i, k, b) ==
 
 ----------------------------------------------------------------------------
 (* Lemmas (TLC: X02_MC_Attribution*.cfg) *)
-AsSigned == TV!cur = orig /\ retag = {}
+AsSigned == XTV!cur = orig /\ retag = {}
 
 \* L1  on every reachable state of the signer the attribution IS the signer's state
 AttributionIsSigned == AsSigned => \A i \in Ins : Attribution(i) = signed[i]
@@ -118,30 +142,38 @@ AttributionIsSigned == AsSigned => \A i \in Ins : Attribution(i) = signed[i]
 \*     the attribution exactly when one of the changed fields is committed by ITS hash type
 \*     (so an input may keep some of its signers and lose others); nothing else ever changes it
 CommitmentInvariance ==
-    (TV!SameStructure /\ retag = {}) =>
-        \A cf \in {TV!ChangedFields} :           \* (evaluated once per state)
+    (XTV!SameStructure /\ retag = {}) =>
+        \A cf \in {XTV!ChangedFields} :           \* (evaluated once per state)
             \A i \in Ins :
-                Attribution(i) = {p \in signed[i] : ~\E x \in cf : TV!CommitsTo(i, HT(p[2]), SVOf(i), x, Len(orig.outs))}
+                Attribution(i) = {p \in signed[i] : ~\E x \in cf : XTV!CommitsTo(i, HT(p[2]), SVOf(i), x, Len(orig.outs))}
 
 \* L3  never a key that has not signed, never a key the puzzle does not list, never two reports for a key
 NoInvention == \A pos \in Positions :
                   LET i == ins[pos].unl IN
-                  /\ {p[1] : p \in Attribution(pos)} \subseteq (IF i = 0 THEN {} ELSE Present(i) \cap Listed(i))
-                  /\ \A p, q \in Attribution(pos) : p[1] = q[1] => p = q
-                  /\ Cardinality(Attribution(pos)) <= (IF i = 0 THEN 0 ELSE Need(i))
+                  /\ Attribution(pos) \subseteq AttributionMay(pos)
+                  /\ {p[1] : p \in AttributionMay(pos)} \subseteq (IF i = 0 THEN {} ELSE Present(i) \cap Listed(i))
+                  /\ \A p, q \in AttributionMay(pos) : p[1] = q[1] => p = q
+                  /\ Cardinality(AttributionMay(pos)) <= (IF i = 0 THEN 0 ELSE Need(i))
 
 \* L4  a signature whose hash-type byte was overwritten only survives where the digest does not depend
 \*     on the byte: the SIGHASH_SINGLE-without-output corner of the original algorithm
-RetagKills == \A pos \in Positions : \A p \in Attribution(pos) :
+RetagKills == \A pos \in Positions : \A p \in AttributionMay(pos) :
                   LET i == ins[pos].unl IN
                   (\E t \in retag : t[1] = i /\ t[2] = p[1]) =>
-                      TV!View(Norm(ins), outs, ver, lock, pos, HT(p[2]), SVOf(i)).bug
+                      XTV!View(Norm(ins), outs, ver, lock, pos, HT(p[2]), SVOf(i)).bug
 
 \* L5  unlocking data sitting on another input (another outpoint) only survives in that same corner
 TransplantKills == \A pos \in Positions :
                       LET r == ins[pos] IN
                       (r.unl # 0 /\ r.id # r.unl) =>
-                          \A p \in Attribution(pos) : TV!View(Norm(ins), outs, ver, lock, pos, HT(p[2]), SVOf(r.unl)).bug
+                          \A p \in AttributionMay(pos) : XTV!View(Norm(ins), outs, ver, lock, pos, HT(p[2]), SVOf(r.unl)).bug
+
+\* L5b the report is left open only in that corner: unlocking data on a foreign puzzle, digest a constant
+OpenOnlyInCorner == \A pos \in Positions :
+                       Attribution(pos) # AttributionMay(pos) =>
+                           LET r == ins[pos] IN
+                           /\ r.unl # 0 /\ r.id # r.unl /\ ~FacesOwnPuzzle(pos)
+                           /\ \A p \in AttributionMay(pos) : XTV!View(Norm(ins), outs, ver, lock, pos, HT(p[2]), SVOf(r.unl)).bug
 
 \* L6  link to validation: as signed, an input is valid iff m of its listed keys are attributed
 ValidIffAttributed == AsSigned => \A i \in Ins : valid[i] <=> Cardinality(Attribution(i)) >= Need(i)
@@ -150,6 +182,6 @@ ValidIffAttributed == AsSigned => \A i \in Ins : valid[i] <=> Cardinality(Attrib
 EditOnlyRemoves ==
     [][Editing' => \A pos \in 1..Len(ins') :
                       LET i == ins'[pos].unl IN
-                      {p[1] : p \in Attribution(pos)'} \subseteq (IF i = 0 THEN {} ELSE Present(i))]_xvars
+                      {p[1] : p \in AttributionMay(pos)'} \subseteq (IF i = 0 THEN {} ELSE Present(i))]_xvars
 SigningOnlyAdds == [][(~Editing') => \A i \in Ins : Attribution(i) \subseteq Attribution(i)']_xvars
 =============================================================================
